@@ -396,10 +396,12 @@ func runC20(c *Ctx) {
 	if cw := w.Method(yubiPkg, "client", "Wait"); cw != nil {
 		c.Saw(cw)
 		ok := false
+		var reqv0 ssa.Value
 		w.Focus(cw)
 		for _, call := range w.callsInDeep(cw) {
 			if callee := call.Common().StaticCallee(); callee != nil && callee == clientExchange(w) {
 				reqv := w.canon(cw, call.Common().Args[len(call.Common().Args)-1])
+				reqv0 = reqv
 				ex := w.Expr(reqv)
 				// append([1]byte{wait}[:], code)
 				ok = strings.Contains(ex, "builtin:append") && findStoreOf(w, reqv, "p1")
@@ -423,6 +425,12 @@ func runC20(c *Ctx) {
 						}
 					}
 				}
+			}
+		}
+		if !ok && reqv0 != nil {
+			if parts, isSeq := w.byteSeq(cw, reqv0, 0); isSeq && len(parts) == 2 && parts[0].one != nil && parts[1].one != nil {
+				_, isK := intConst(w.canon(cw, parts[0].one))
+				ok = isK && w.Expr(parts[1].one) == "p1"
 			}
 		}
 		c.Check(ok, "R3.loop", "client.Wait|request carries the code", w.FnPos(cw), "append([]byte{wait}, code)", "the client's wait request does not carry the caller's code")
